@@ -277,13 +277,13 @@ class TypeState:
                 # are added.
                 for base_info in info.mro[:-1]:
                     trigger = make_trigger(f"{base_info.fullname}.{attr}")
-                    if "typing" in trigger or "builtins" in trigger:
+                    if base_info.module_name in ("typing", "typing_extensions", "builtins"):
                         # TODO: avoid everything from typeshed
                         continue
                     deps.setdefault(trigger, set()).add(make_trigger(info.fullname))
             for proto in self._attempted_protocols[info.fullname]:
                 trigger = make_trigger(info.fullname)
-                if "typing" in trigger or "builtins" in trigger:
+                if info.module_name in ("typing", "typing_extensions", "builtins"):
                     continue
                 # If any class that was checked against a protocol changes,
                 # we need to reset the subtype cache for the protocol.
